@@ -62,6 +62,8 @@ pub struct Obs {
     pub steps: u64,
     pub faults: BTreeMap<&'static str, u64>,
     pub reach: BTreeMap<&'static str, u64>,
+    /// running maxima (margins); merged by max, so also order-independent
+    pub maxes: BTreeMap<&'static str, u64>,
     /// signatures of the executions of this run (class of op, value, events, outcome)
     pub sigs: Vec<(u64, bool)>,
     /// digest of everything observable in this run (determinism proof)
@@ -83,6 +85,12 @@ impl Obs {
     pub fn reach_n(&mut self, k: &'static str, n: u64) {
         if n > 0 {
             *self.reach.entry(k).or_insert(0) += n;
+        }
+    }
+    pub fn max(&mut self, k: &'static str, v: u64) {
+        let e = self.maxes.entry(k).or_insert(0);
+        if v > *e {
+            *e = v;
         }
     }
     pub fn sig(&mut self, words: &[u64], nontrivial: bool) {
@@ -185,6 +193,7 @@ pub struct Agg {
     pub steps: u64,
     pub faults: BTreeMap<&'static str, u64>,
     pub reach: BTreeMap<&'static str, u64>,
+    pub maxes: BTreeMap<&'static str, u64>,
     pub sigs_all: BTreeSet<u64>,
     pub sigs_nontrivial: BTreeSet<u64>,
     pub digest_sum: u64,
@@ -192,6 +201,8 @@ pub struct Agg {
     pub unlisted: u64,
     pub first_unlisted: Option<(u64, usize)>, // (run index, failure index within run)
     pub per_run_digests: Vec<(u64, u64)>,
+    /// VERIF_SURVEY: histogram of unlisted failures by (rule, facts) with one example each
+    pub survey: BTreeMap<String, (u64, String)>,
 }
 
 impl Agg {
@@ -206,6 +217,10 @@ impl Agg {
         }
         for (k, v) in &o.reach {
             *self.reach.entry(k).or_insert(0) += v;
+        }
+        for (k, v) in &o.maxes {
+            let e = self.maxes.entry(k).or_insert(0);
+            *e = (*e).max(*v);
         }
         for &(s, nt) in &o.sigs {
             self.sigs_all.insert(s);
@@ -231,6 +246,10 @@ impl Agg {
         for (k, v) in o.reach {
             *self.reach.entry(k).or_insert(0) += v;
         }
+        for (k, v) in o.maxes {
+            let e = self.maxes.entry(k).or_insert(0);
+            *e = (*e).max(v);
+        }
         self.sigs_all.extend(o.sigs_all);
         self.sigs_nontrivial.extend(o.sigs_nontrivial);
         self.digest_sum = self.digest_sum.wrapping_add(o.digest_sum);
@@ -248,6 +267,10 @@ impl Agg {
             (a, b) => a.or(b),
         };
         self.per_run_digests.extend(o.per_run_digests);
+        for (k, (c, d)) in o.survey {
+            let e = self.survey.entry(k).or_insert((0, d));
+            e.0 += c;
+        }
     }
 }
 
@@ -280,7 +303,8 @@ impl Settings {
         let verif_dir = std::env::var("VERIF_DIR").map(PathBuf::from).unwrap_or_else(|_| PathBuf::from("/verif"));
         let runs_override = std::env::var("VERIF_RUNS").ok().and_then(|s| s.parse().ok());
         let digest_file = std::env::var("VERIF_DIGEST_FILE").ok().map(PathBuf::from);
-        Ok(Settings { seed, tier, workers, verif_dir, runs_override, digest_file, write_evidence: true })
+        let write_evidence = std::env::var_os("VERIF_NO_EVIDENCE").is_none();
+        Ok(Settings { seed, tier, workers, verif_dir, runs_override, digest_file, write_evidence })
     }
 }
 
@@ -375,6 +399,7 @@ pub fn run_check<P: Property>(p: &P, st: &Settings) -> i32 {
     let sample_idx: BTreeSet<u64> = [0u64, 1, 2, n / 3, n / 2, n.saturating_sub(1)].into_iter().filter(|&i| i < n).collect();
     let samples: Mutex<BTreeMap<u64, Value>> = Mutex::new(BTreeMap::new());
     let chunk = 16u64;
+    let survey = std::env::var_os("VERIF_SURVEY").is_some();
 
     let aggs: Vec<Agg> = std::thread::scope(|sc| {
         let handles: Vec<_> = (0..st.workers)
@@ -426,9 +451,17 @@ pub fn run_check<P: Property>(p: &P, st: &Settings) -> i32 {
                                     }
                                     None => {
                                         agg.unlisted += 1;
-                                        let cand = (run, fi);
-                                        agg.first_unlisted = Some(agg.first_unlisted.map_or(cand, |c| c.min(cand)));
-                                        stop.store(true, Ordering::Relaxed);
+                                        if survey {
+                                            let mut facts = f.facts.clone();
+                                            facts.remove("env");
+                                            let key = format!("{} {}", f.rule, serde_json::to_string(&facts).unwrap_or_default());
+                                            let e = agg.survey.entry(key).or_insert((0, f.detail.clone()));
+                                            e.0 += 1;
+                                        } else {
+                                            let cand = (run, fi);
+                                            agg.first_unlisted = Some(agg.first_unlisted.map_or(cand, |c| c.min(cand)));
+                                            stop.store(true, Ordering::Relaxed);
+                                        }
                                     }
                                 }
                             }
@@ -447,6 +480,14 @@ pub fn run_check<P: Property>(p: &P, st: &Settings) -> i32 {
     let mut agg = Agg::default();
     for a in aggs {
         agg.merge(a);
+    }
+
+    if survey {
+        println!("SURVEY (not a verdict): {} unlisted failures in {} runs", agg.unlisted, agg.runs);
+        for (k, (c, d)) in &agg.survey {
+            println!("  {:>8}  {}\n            e.g. {}", c, k, d);
+        }
+        return 0;
     }
 
     // 3. determinism log
@@ -537,6 +578,7 @@ pub fn run_check<P: Property>(p: &P, st: &Settings) -> i32 {
             "distinct_signatures_all": agg.sigs_all.len(),
             "faults_fired": agg.faults,
             "reach": agg.reach,
+            "maxima": agg.maxes,
             "simulated_time": format!("no clock exists in the system under test; logical steps (sink calls + I/O calls + Newton iterations + float-site calls) = {}", agg.steps),
             "logical_steps": agg.steps,
             "runs_per_hour": if wall > 0.0 { (agg.runs as f64 / wall * 3600.0) as u64 } else { 0 },
